@@ -38,11 +38,66 @@ META = {
                   "toqito.rand.random_psd_operator", "toqito.measurements.pretty_good_measurement",
                   "toqito.measurements.pretty_bad_measurement", "toqito.measurement_ops.measure",
                   "toqito.measurement_props.is_povm"],
-    "explanation": "",
-    "bounds": {"quick": "", "thorough": ""},
-    "trusted_base": [],
-    "outside_claim": [],
-    "assumptions": [],
+    "explanation": "Bounded symbolic execution of the real toqito.rand / measurement functions with the environment replaced by "
+                   "nondeterministic stubs: inside toqito `np.random` is a recording substitute whose default_rng(seed) returns a "
+                   "generator that remembers the seed object it was built from and whose random/standard_normal/normal/uniform "
+                   "draws are FRESH UNCONSTRAINED solver variables (named by draw index; only the documented range [0,1) of "
+                   "Generator.random is attached, as a path-scoped assumption); any use of the global np.random state is recorded. "
+                   "(a) Provenance: for every generator function, seeded and unseeded, in the history call / unseeded call of "
+                   "another generator / same call again, every draw comes from a generator constructed in that very call as "
+                   "default_rng(seed=<the call's own seed object>) and nothing touches global state, so reproducibility reduces to "
+                   "numpy's contract for seeded generators. (b) Validity for ARBITRARY draws: z3 decides per configuration that the "
+                   "returned object equals a witness form that makes the advertised kind evident: density matrix = H H^dagger / "
+                   "Tr(H H^dagger) for a dim x k factor H of the draws with trace exactly 1 (PSD, rank <= k); random_unitary "
+                   "U^dagger U = U U^dagger = I under the QR contract (Q R = A, Q^dagger Q = I, Q Q^dagger = I for square A, real "
+                   "for real A) with np.sign forked (real) or an uninterpreted unit-modulus phase (complex), real => real "
+                   "entries; orthonormal basis = its columns; PSD operator = M M^dagger with M = Q sqrt|w| (eigh, qr kernels by "
+                   "congruence); state vector = the normalised draw, or the normalised sum of k product terms a_j (x) b_j "
+                   "(Schmidt rank <= k), unit norm; POVM elements = M^dagger M and sum to I per input under the SVD contract for "
+                   "the PSD Gram normaliser; circulant Gram matrix = (1/n) sum_k D_k cos(2 pi k (a-b)/n) within 1e-12 (circulant, "
+                   "symmetric, non-negative combination of PSD terms for D_k >= 0); random_states / random_ginibre = the stated "
+                   "formulas of the draws. Non-linear consequences of contract equalities (E = 0 => m*E = 0) are handed to the "
+                   "monomial abstraction as lemma instances. (c) measure: every path of is_density, the probability "
+                   "threshold and the completeness guard is explored; prob = Re Tr(K rho K^dagger), post state = K rho K^dagger / "
+                   "prob with trace 1 (zero matrix at or below tol), total = Re Tr(rho sum K^dagger K), exceptions only for a "
+                   "non-density input or an exactly incomplete list, acceptance only within tolerance, a family complete by "
+                   "construction is accepted with total Tr rho; pretty_good_measurement elements = p_j (R A_j)(R A_j)^dagger and "
+                   "sum to I under the contract R P R = I, R Hermitian, for R = fractional_matrix_power(P, -1/2); "
+                   "pretty_bad_measurement elements = sum_{l != j} G_l / (n-1) and sum to I; is_povm's verdict = its documented "
+                   "formula on every path.",
+    "bounds": {
+        "quick": "provenance: 18 function/option forms x {seeded, unseeded}; random_density_matrix haar dim 1..4, k_param in "
+                 "{default, 1..dim+1}, real/complex; bures dim 1..3 every k; random_unitary / orthonormal_basis dim 1..3 real/complex, "
+                 "int and list dim; psd dim 1..3; circulant dim 1..6; state_vector scalar dim 1..4 and list dims (2,2),(2,3),(3,2), "
+                 "k_param 0..min(dim); povm dim<=3 (inputs<=2, outputs<=3); measure d=2 (1..3 operators, single/list/tuple, "
+                 "both state_update, 3x2 operators), d=3 two operators; PGM/PBM d=2 n=2,3, d=3 n=3; is_povm d*n<=4",
+        "thorough": "density haar dim 1..6; bures dim 1..4 (dim 4 complex only); unitary / basis dim 1..4; psd dim 1..5; circulant "
+                    "dim 1..8; state_vector scalar dim 1..6, list dims up to (4,4); povm dim<=4; measure d<=4; PGM/PBM d=2 n=2..6, "
+                    "d=3 n=3,4 and two full-rank density operators; is_povm up to 3x3",
+    },
+    "trusted_base": ["numpy object-array semantics = numeric semantics (translator validation where no kernel-dependent branch exists)",
+                     "numpy's contract for seeded generators: default_rng(seed) with equal seed yields equal streams, independent of "
+                     "global state and of other generators",
+                     "LAPACK/scipy kernels satisfy their algebraic contracts: qr (Q R = A, Q unitary for square A, real for real A), "
+                     "eigh (real eigenvectors for real symmetric A), svd of a PSD Gram matrix is its eigendecomposition, "
+                     "fractional_matrix_power(P, -1/2) = R with R P R = I and R Hermitian for positive definite P; numpy >= 2 "
+                     "np.sign(z) = z/|z|",
+                     "z3 5.1.0"],
+    "outside_claim": [
+        "'different seeds give different objects': a statement about the bit generator, not about toqito's glue",
+        "distributional statements (Haar / Hilbert-Schmidt / Bures / Gaussian distribution, independence of entries); note: with a seed, "
+        "the bures branch builds its unitary from a second generator with the SAME seed, so U and G are functions of one stream",
+        "pretty-good success probability between opt^2 and opt (needs the optimum of a conic program)",
+        "positive semidefiniteness / rank as eigenvalue statements: decided through the witness factorisations (M M^dagger, dim x k "
+        "factors, sums of k product terms) instead; is_povm applied to kernel outputs (eigenvalue tolerances)",
+        "draws that make a normaliser exactly zero (all draws 0: probability 0; numpy returns nan): division by zero is outside the model",
+        "numerical accuracy of qr / eigh / svd / fractional_matrix_power; ensembles that do not span the space (P singular)",
+        "list-valued k_param of random_density_matrix (no documented meaning); dimensions above the bound (property says 1..6)",
+        "measure on inputs that are Hermitian only within tolerance (rho is an exactly Hermitian symbolic matrix)",
+    ],
+    "assumptions": ["floats modelled as reals (float constants such as 1/(n-1), the DFT matrix and 1/sqrt(2) enter with their exact binary value)",
+                    "Generator.random() in [0,1) (documented range), all other draws unconstrained reals",
+                    "divisors non-zero and radicands non-negative on the paths that divide / take the root"],
 }
 
 
@@ -211,14 +266,16 @@ class RecordingRandom:
             for n, v in saved.items():
                 setattr(np.random, n, v)
 
-    def report(self, seed, n_generators):
-        """[generators constructed, each one is default_rng(seed=<the caller's own seed object>) without further arguments,
-        uses of global np.random state, every draw comes from a generator created in the same call (no cached generator),
-        draws made, unmodelled generator methods]"""
-        own = all((g.seed is seed) and g.extra_args == ((), {}) for g in self.gens)
+    def report(self, seeds, n_generators):
+        """seeds[c] / n_generators[c]: the seed argument and the expected number of generators of call number c.
+        [generators per call as expected, each one is default_rng(seed=<that call's own seed object>) without further
+        arguments, uses of global np.random state, every draw comes from a generator created in the same call (no cached
+        generator, no dependence on earlier calls), draws made in every call, unmodelled generator methods]"""
+        own = all((g.seed is seeds[g.call_no]) and g.extra_args == ((), {}) for g in self.gens)
         fresh = all(d["call_no"] == self.gens[d["gen"]].call_no for d in self.draws)
-        per_call = len(self.gens) == n_generators * (self.call_no + 1)
-        return [bool(per_call), bool(own), len(self.global_uses), bool(fresh), bool(len(self.draws) > 0), len(self.unmodelled)]
+        per_call = all(sum(1 for g in self.gens if g.call_no == c) == n for c, n in enumerate(n_generators))
+        drew = all(any(d["call_no"] == c for d in self.draws) for c in range(len(seeds)))
+        return [bool(per_call), bool(own), len(self.global_uses), bool(fresh), bool(drew), len(self.unmodelled)]
 
 
 RNG = RecordingRandom()
@@ -236,10 +293,6 @@ def draw_pool(b, n):
 def pool_block(pool, off, shape):
     n = prod(shape)
     return np.asarray(list(np.asarray(pool, dtype=object).ravel()[off:off + n]), dtype=object).reshape(shape), off + n
-
-
-def numeric(x):
-    return not core._CTX
 
 
 def as_arr(x):
@@ -377,7 +430,6 @@ def lemma_inv_square(x):
     lemma_mul(one, [t * x])
 
 
-_h_qr_core = HANDLERS[np.linalg.qr]
 
 
 @handles(np.linalg.qr)
@@ -518,11 +570,16 @@ def ob_prov(fname, cfg, thunk, n_generators=1, pool_n=64, seed=SEED):
         return {"pool": draw_pool(b, pool_n)}
 
     def call(i):
+        # history: the call, an unseeded call of another generator function, the same call again
+        other = _SeedInt(7) if seed is None else None
         with RNG.session(i["pool"]) as s:
-            for rep in range(2):          # twice: the second call must not reuse anything of the first (no cached generator)
-                s.call_no = rep
-                thunk(seed)
-            return s.report(seed, n_generators)
+            s.call_no = 0
+            thunk(seed)
+            s.call_no = 1
+            random_ginibre(1, 2, seed=other)
+            s.call_no = 2
+            thunk(seed)
+            return s.report([seed, other, seed], [n_generators, 1, n_generators])
 
     def oracle(i):
         return [True, True, 0, True, True, 0]
@@ -536,8 +593,8 @@ def ob_prov(fname, cfg, thunk, n_generators=1, pool_n=64, seed=SEED):
 def ob_density(dim, is_real, k, metric, definition=False):
     """definition=False: the property's claim (valid density operator of rank <= k: SOME dim x k factor).
     definition=True (bures): the factor is the Bures construction (1 + U) G itself."""
-    cfg = {"dim": dim, "is_real": is_real, "k_param": k, "distance_metric": metric}
     kk = dim if k is None else k
+    cfg = {"dim": dim, "is_real": is_real, "k_param": k, "distance_metric": metric, "k_lt_dim": kk < dim, "dim_is_1": dim == 1}
     n_pool = dim * kk * 2 + dim * dim * 2 + 2
 
     def build(b):
@@ -578,7 +635,8 @@ def ob_density(dim, is_real, k, metric, definition=False):
     if definition:
         name = "random_density_matrix.bures_factor_is_(1+U)G"
     return Obligation(name, cfg, build, call, marker_oracle, post=post, neg=marker_neg, rng=RNG, max_paths=128,
-                      contracts=("qr",), tv=(metric != "bures"), valid=valid, witness=witness)
+                      contracts=("qr",), tv=(metric != "bures"), valid=valid, witness=witness,
+                      weight=(dim ** 4 if metric == "bures" else 1))
 
 
 def unitary_lemmas(gin):
@@ -683,7 +741,7 @@ def ob_basis(dim, is_real):
         for v in vs:
             t = np.outer(v, np.conj(v))
             resol = t if resol is None else resol + t
-        return [gramm if core._CTX else gramm.astype(complex), resol, np.asarray([len(vs)] + [v.shape for v in vs][0:1][0:1] and [len(vs), vs[0].shape[0], vs[0].ndim]),
+        return [gramm if core._CTX else gramm.astype(complex), resol, np.asarray([len(vs), vs[0].shape[0], vs[0].ndim]),
                 [is_real_valued(np.asarray(vs))] if is_real else [True]]
 
     def oracle(i):
@@ -723,7 +781,7 @@ def normsq(v):
 
 def ob_state_vector(dim, is_real, k):
     """dim: int or [d0, d1]; k = k_param"""
-    cfg = {"dim": dim, "is_real": is_real, "k_param": k}
+    cfg = {"dim": dim, "is_real": is_real, "k_param": k, "dim_form": "list" if isinstance(dim, list) else "int"}
     lst = isinstance(dim, list)
     d0, d1 = (dim if lst else (dim, dim))
     schmidt = 0 < k < min(d0, d1)
@@ -1063,8 +1121,9 @@ def density_verdict(rho):
     return bool(herm and np.all(np.linalg.eigvalsh(rho) >= -1e-8) and np.isclose(np.trace(rho), 1))
 
 
-def within(S, bound):
+def within(S, bound, num_bound=None):
     """every entry of S - I within `bound` (real and imaginary part)"""
+    num_bound = bound if num_bound is None else num_bound
     S = np.asarray(S)
     conj = []
     for a in range(S.shape[0]):
@@ -1073,8 +1132,20 @@ def within(S, bound):
             if isinstance(d, Sym):
                 conj += [d.real <= bound, -d.real <= bound, d.imag <= bound, -d.imag <= bound]
             else:
-                conj.append(bool(abs(d) <= bound))
+                conj.append(bool(abs(d) <= num_bound))
     return And(*conj)
+
+
+def witness_matrix(m, d, j):
+    """fixed generic complex m x d matrix (demonstration of reported violations only)"""
+    return np.array([[((3 * a + 5 * b_ + 7 * j + 1) % 8) / 8 + 1j * (((5 * a + 3 * b_ + j + 2) % 8) / 8 - 0.5) for b_ in range(d)]
+                     for a in range(m)], dtype=complex)
+
+
+def witness_density(d):
+    a = witness_matrix(d, d, 11)
+    rho = a @ a.conj().T
+    return rho / np.trace(rho).real
 
 
 def ob_measure(d, r, form, su, m=None):
@@ -1137,8 +1208,10 @@ def ob_measure(d, r, form, su, m=None):
             ex = eq(completeness(list(i["K"])), np.identity(d))
             return ~ex if isinstance(ex, SymBool) else (not ex)
         return False
+    def witness():
+        return [{"rho": witness_density(d), "K": [witness_matrix(m, d, j) for j in range(r)]}]
     return Obligation("measure.born_rule_post_state_total_and_guards", cfg, build, call, marker_oracle, post=post, neg=neg,
-                      exc_post=exc_post, max_paths=600, weight=4 * r * d, tv=False)
+                      exc_post=exc_post, max_paths=600, weight=4 * r * d, tv=False, witness=witness)
 
 
 def ob_measure_complete_family(d, su):
@@ -1301,7 +1374,7 @@ def ob_pgm(d, n, form, priors, bad=False):
                 for l in range(n):
                     if l != j:
                         t = G[l] if t is None else t + G[l]
-                want.append(t / (n - 1))
+                want.append(t * (1 / (n - 1)))       # the float constant 1/(n-1) the code multiplies with (floats modelled as reals)
         else:
             want = G
         tot = None
@@ -1312,7 +1385,9 @@ def ob_pgm(d, n, form, priors, bad=False):
     def post(res, exp, i):
         (ops, tot), want = res
         want = maybe_neg(exp, want)
-        return And(len(ops) == n, eq(ops, list(want)), eq(tot, np.identity(d)))
+        # pretty bad: the float constant 1/(n-1) times (n-1) is 1 only up to one rounding => identity within 1e-12
+        total = within(tot, 1e-12, 1e-7) if bad else eq(tot, np.identity(d))
+        return And(len(ops) == n, eq(ops, list(want)), total)
 
     def exc_post(e, i):
         if not isinstance(e, ValueError) or i["p"] is None:
@@ -1324,10 +1399,25 @@ def ob_pgm(d, n, form, priors, bad=False):
         if isinstance(dlt, Sym):
             return Or(dlt > 1e-8 + 1e-5, -dlt > 1e-8 + 1e-5)
         return bool(abs(dlt) > 1e-8 + 1e-5)
+    def assume(i):
+        return [x >= 0 for x in i["p"]] if i["p"] is not None else []
+
+    def valid(ni):
+        # the property speaks about ensembles spanning the space with priors: P = sum p_j rho_j positive definite
+        ps = ni["p"] if ni["p"] is not None else [1 / n] * n
+        if min(ps) < 0:
+            return False
+        P = sum(pj * (f @ f.conj().T) for pj, f in zip(ps, [np.asarray(x, dtype=complex).reshape(d, -1) for x in ni["st"]]))
+        return bool(np.min(np.linalg.eigvalsh(P)) > 1e-6)
+
+    def witness():
+        st = [witness_matrix(d, d if form == "dm" else 1, j) for j in range(n)]
+        st = [x if form != "vec" else x.reshape(-1) for x in st]
+        return [{"st": st, "p": None if priors != "sym" else [2 * (j + 1) / (n * (n + 1)) for j in range(n)]}]
     name = ("pretty_bad_measurement.elements_are_(I-G_j)/(n-1)_as_psd_combination_and_sum_to_identity" if bad else
             "pretty_good_measurement.elements_p_j(R A_j)(R A_j)dag_and_sum_to_identity_under_RPR=I")
-    return Obligation(name, cfg, build, call, marker_oracle, post=post, neg=marker_neg, exc_post=exc_post,
-                      contracts=("fmp_inv_sqrt",), tv=True, max_paths=16, weight=d * d * n)
+    return Obligation(name, cfg, build, call, marker_oracle, post=post, neg=marker_neg, exc_post=exc_post, assume=assume,
+                      valid=valid, witness=witness, contracts=("fmp_inv_sqrt",), tv=True, max_paths=16, weight=d * d * n)
 
 
 def ob_pgm_len_mismatch(bad):
@@ -1383,8 +1473,7 @@ def ob_is_povm(d, n, kind):
 def obligations(tier):
     T = tier == "thorough"
     obs = []
-    dims = [1, 2, 3] + ([4] if T else [])
-    # ---- provenance --------------------------------------------------------------------------------------------
+    # ---- (a) provenance: every generator function, seeded and unseeded, twice in a row -------------------------------------
     for seed in (SEED, None):
         for is_real in (False, True):
             obs.append(ob_prov("random_unitary", {"dim": 2, "is_real": is_real}, lambda s, r=is_real: random_unitary(2, r, seed=s), seed=seed))
@@ -1401,55 +1490,57 @@ def obligations(tier):
         obs.append(ob_prov("random_povm", {"dim": 2, "num_inputs": 2, "num_outputs": 2}, lambda s: random_povm(2, 2, 2, seed=s), seed=seed))
         obs.append(ob_prov("random_states", {"n": 2, "d": 2}, lambda s: random_states(2, 2, seed=s), seed=seed))
         obs.append(ob_prov("random_circulant_gram_matrix", {"dim": 3}, lambda s: random_circulant_gram_matrix(3, seed=s), seed=seed))
-    # ---- random_density_matrix ---------------------------------------------------------------------------------
-    for dim in dims:
+    # ---- random_density_matrix: every k_param in 1..dim+1 and the default -------------------------------------------------------
+    for dim in range(1, (6 if T else 4) + 1):
         for is_real in (False, True):
             for k in [None] + list(range(1, dim + 2)):
-                if dim * (k or dim) > (12 if T else 9):
-                    continue
                 obs.append(ob_density(dim, is_real, k, "haar"))
-    for dim in ([1, 2, 3] if T else [1, 2]):
+    for dim in range(1, (4 if T else 3) + 1):
         for is_real in (False, True):
+            if dim == 4 and is_real:
+                continue            # 3^4 sign paths of the nested real random_unitary: covered up to dim 3
             for k in [None] + list(range(1, dim + 1)):
+                if dim == 4 and k == dim:
+                    continue        # same computation as the default (about a minute each)
                 obs.append(ob_density(dim, is_real, k, "bures"))
-            obs.append(ob_density(dim, is_real, None, "bures", definition=True))
-    # ---- random_unitary / random_orthonormal_basis ---------------------------------------------------------------
-    for dim in ([1, 2, 3] if T else [1, 2]):
+            if dim < 4:
+                obs.append(ob_density(dim, is_real, None, "bures", definition=True))
+    # ---- random_unitary / random_orthonormal_basis -------------------------------------------------------------------------------
+    for dim in range(1, (4 if T else 3) + 1):
         for is_real in (False, True):
             for form in ("int", "list"):
                 obs.append(ob_unitary(dim, is_real, form))
             obs.append(ob_basis(dim, is_real))
     for d0, d1 in [(2, 3), (1, 2), (2, 2)]:
         obs.append(ob_unitary_rejects_nonsquare(d0, d1))
-    # ---- random_psd_operator, random_ginibre, random_circulant_gram_matrix, random_states ---------------------------------
-    for dim in dims:
+    # ---- random_psd_operator, random_ginibre, random_circulant_gram_matrix, random_states ---------------------------------------
+    for dim in range(1, (5 if T else 3) + 1):
         for is_real in (False, True):
             obs.append(ob_psd(dim, is_real))
+    for dim in range(1, (8 if T else 6) + 1):
         obs.append(ob_circulant(dim))
-    for dim in ([5, 6] if T else [5]):
-        obs.append(ob_circulant(dim))
-    for n, m in [(1, 1), (2, 2), (2, 3), (3, 2)] + ([(4, 4)] if T else []):
+    for n, m in [(1, 1), (2, 2), (2, 3), (3, 2)] + ([(4, 4), (6, 6), (1, 5)] if T else []):
         obs.append(ob_ginibre(n, m))
-    for n, d in [(1, 1), (1, 2), (2, 2), (3, 2), (2, 3)] + ([(4, 3), (3, 4)] if T else []):
+    for n, d in [(1, 1), (1, 2), (2, 2), (3, 2), (2, 3)] + ([(4, 3), (3, 4), (2, 6), (6, 2)] if T else []):
         obs.append(ob_states(n, d))
-    # ---- random_state_vector: scalar and list dim, k over its whole range ----------------------------------------------------
-    sd = [1, 2, 3] + ([4] if T else [])
-    for d in sd:
+    # ---- random_state_vector: scalar and list dim, k_param over its whole range -------------------------------------------------
+    for d in range(1, (6 if T else 4) + 1):
         for is_real in (False, True):
             for k in range(0, d + 1):
+                if d * d * max(k, 1) > 64:
+                    continue
                 obs.append(ob_state_vector(d, is_real, k))
-    for d0, d1 in [(2, 2), (2, 3), (3, 2)] + ([(3, 3), (2, 4)] if T else []):
+    for d0, d1 in [(2, 2), (2, 3), (3, 2)] + ([(3, 3), (2, 4), (3, 4), (4, 4)] if T else []):
         for is_real in (False, True):
             for k in range(0, min(d0, d1) + 1):
                 obs.append(ob_state_vector([d0, d1], is_real, k))
-    # ---- random_povm ---------------------------------------------------------------------------------------------------------
-    for dim in ([1, 2, 3] if T else [1, 2]):
-        for ni in (1, 2):
-            for no in ((1, 2, 3) if dim < 3 else (1, 2)):
-                if ni == 2 and no == 3:
-                    continue
-                obs.append(ob_povm(dim, ni, no))
-    # ---- measure -----------------------------------------------------------------------------------------------------------
+    # ---- random_povm --------------------------------------------------------------------------------------------------------------
+    shapes = [(1, 1, 1), (1, 1, 2), (1, 2, 2), (1, 1, 3), (2, 1, 1), (2, 1, 2), (2, 2, 2), (2, 1, 3), (3, 1, 2)]
+    if T:
+        shapes += [(2, 2, 3), (2, 1, 4), (3, 1, 1), (3, 2, 2), (3, 1, 3), (4, 1, 2)]
+    for dim, ni, no in shapes:
+        obs.append(ob_povm(dim, ni, no))
+    # ---- measure ----------------------------------------------------------------------------------------------------------------------
     for d in ([2, 3] if T else [2]):
         for su in (False, True):
             obs.append(ob_measure(d, 1, "single", su))
@@ -1459,18 +1550,32 @@ def obligations(tier):
             obs.append(ob_measure_complete_family(d, su))
         obs.append(ob_measure(d, 2, "list", False, m=d + 1))
         obs.append(ob_measure_incomplete_rejected(d, 2))
-    # ---- pretty good / pretty bad measurement, is_povm ---------------------------------------------------------------------
-    for d in ([2, 3] if T else [2]):
-        for n in ([2, 3, 4] if (T and d == 2) else [2, 3]):
-            for form in ("vec", "col", "dm"):
-                for priors in ("uniform", "sym"):
-                    if form == "dm" and (n > 2 or d > 2) and not T:
-                        continue
-                    obs.append(ob_pgm(d, n, form, priors))
-                    obs.append(ob_pgm(d, n, form, priors, bad=True))
+    if not T:
+        obs.append(ob_measure(3, 2, "list", True))
+        obs.append(ob_measure_complete_family(3, True))
+    else:
+        obs.append(ob_measure(4, 2, "list", True))
+        obs.append(ob_measure(2, 4, "list", True))
+    # ---- pretty good / pretty bad measurement, is_povm -------------------------------------------------------------------------
+    ens = [(2, 2), (2, 3)] + ([(2, 4), (2, 5), (2, 6), (3, 3), (3, 4)] if T else [(3, 3)])
+    for d, n in ens:
+        for form in ("vec", "col", "dm"):
+            for priors in ("uniform", "sym"):
+                if form == "dm" and (n > 2 or d > 2) and not T:
+                    continue
+                if form == "dm" and d * n > 9:
+                    continue
+                if form == "col" and d == 3 and not T:
+                    continue
+                obs.append(ob_pgm(d, n, form, priors))
+                obs.append(ob_pgm(d, n, form, priors, bad=True))
+    if T:
+        for priors in ("uniform", "sym"):
+            obs.append(ob_pgm(3, 2, "dm", priors))       # two full-rank density operators span the space
+            obs.append(ob_pgm(3, 2, "dm", priors, bad=True))
     obs.append(ob_pgm_len_mismatch(False))
     obs.append(ob_pgm_len_mismatch(True))
-    for d, n in [(1, 2), (2, 1), (2, 2)] + ([(2, 3), (3, 2)] if T else []):
+    for d, n in [(1, 2), (2, 1), (2, 2)] + ([(2, 3), (3, 2), (3, 3)] if T else []):
         for kind in ("h", "c"):
             if kind == "c" and d * n > 4:
                 continue
